@@ -672,7 +672,9 @@ func (e *Exec) callBuiltin(caller *frame, fn *ssa.Builtin, args []Value) Value {
 		for i := 0; i < n; i++ {
 			b[i] = p.obj.cells[p.idx+i].(*Term)
 		}
-		return &StrV{b: b}
+		sv := &StrV{b: b}
+		e.strAliases = append(e.strAliases, strAlias{s: sv, obj: p.obj, idx: p.idx})
+		return sv
 	case "Slice":
 		p := args[0].(Ptr)
 		n := e.concretizeLen(args[1].(*Term), types.Typ[types.Int], "unsafe.Slice: len out of range")
